@@ -219,6 +219,27 @@ def handleConcS (sched accept : String) (creds : List String) : Option String :=
   let rs ← mapM? (fun s => match s with | SSess.finished r => some (showSRes r) | _ => none) ss
   pure (" ; ".intercalate rs)
 
+/-- the harness's `X-ECHO`: two messages, each answered with the reversed message -/
+def echoMech : Mech := fun hist =>
+  match hist with
+  | [c] => { kind := .more, resp := c.reverse }
+  | [_, c] => { kind := .done, resp := c.reverse }
+  | _ => { kind := .otherErr }
+
+/-- sessions with different mechanisms and exchanges on one feature value, interleaved element
+by element -/
+def handleConcM (sched : String) (scripts : List String) : Option String := do
+  let sch ← mapM? (fun x : String => x.toNat?) (splitList sched)
+  let scs ← mapM? (fun s => mapM? parseSEv (splitList s)) scripts
+  let perm : Bytes → Bytes → Bytes → Bool := fun u p _ =>
+    u == "user".toUTF8.toList && p == "secret".toUTF8.toList
+  let cfg := [("PLAIN", plainServer perm), ("X-ECHO", echoMech)]
+  let n := scs.length
+  let fin := (List.range n).flatMap fun i => List.replicate 6 i
+  let ss := runSched cfg (scs.map SSess.start) (sch ++ fin)
+  let rs ← mapM? (fun s => match s with | SSess.finished r => some (showSRes r) | _ => none) ss
+  pure (" ; ".intercalate rs)
+
 def handleConcC (users : List String) : Option String := do
   let us ← mapM? (fun x => hexDecode x) users
   let rs := us.map fun u =>
@@ -249,6 +270,7 @@ def handle (args : List String) : Option String :=
     handleSrv false none sm steps perm peer "000" (some ⟨t, m, w⟩)
   | "concs" :: sched :: accept :: creds => handleConcS sched accept creds
   | "concc" :: _sched :: users => handleConcC users
+  | "concm" :: sched :: scripts => handleConcM sched scripts
   | ["srvw", n, sm, steps, perm, peer] => do
     let budget ← n.toNat?
     handleSrv false (some budget) sm steps perm peer
